@@ -70,7 +70,14 @@ def render(r, L):
 def active_devs(prop):
     """Deviation switches that are still listed as `known` for this property."""
     known, _ = vlib.load_known(prop)
-    return sorted(k for k in known if k.startswith("Dev_"))
+    devs = sorted(k for k in known if k.startswith("Dev_"))
+    # VERIF_DEVS=none / a comma list: check a tree in which some of the findings are fixed already
+    # (used with VERIF_REPO when a proposed fix is tried out)
+    ov = os.environ.get("VERIF_DEVS")
+    if ov is not None:
+        keep = [] if ov in ("", "none") else ov.split(",")
+        devs = [d for d in devs if d in keep]
+    return devs
 
 
 def run_tlc(ck, module, consts, invariants, *, spec="Spec", simulate=None, depth=None, seed=None,
